@@ -69,8 +69,9 @@ def gen_single(rng):
     k1 = [gen_stage1(rng, n, grammar) for n in shape]
     sh1 = [ixgen.np_len(n, ix) for n, ix in zip(shape, k1)]
     k2 = [gen_stage2(rng, n, grammar) for n in sh1]
-    tf = [rng.choice(['x2', 'f32']) for _ in range(rng.choice([0, 0, 1, 2]))]
-    return dict(kind='single', src=rng.choice(['np', 'h5']), shape=shape, k1=maybe_trunc(rng, k1),
+    tf = [rng.choice(['x2', 'f32', 'rint2']) for _ in range(rng.choice([0, 0, 1, 2]))]
+    return dict(kind='single', src=rng.choice(['np', 'h5']), sdtype=rng.choice(['i8', 'i8', 'f8']), shape=shape,
+                k1=maybe_trunc(rng, k1),
                 k2=maybe_trunc(rng, k2), transforms=tf, arr=[rng.random() < 0.5 for _ in range(16)])
 
 
@@ -88,11 +89,32 @@ def gen_concat(rng):
         if (ix[0] == 'i' or ixgen.np_len(n, ix) == 0) and rng.random() < 0.8:
             ix = FULL
         tails.append(ix)
-    return dict(kind='concat', lens=lens, tail=tail, head=head, tails=maybe_trunc(rng, tails),
+    case = dict(kind='concat', lens=lens, tail=tail, head=head, tails=maybe_trunc(rng, tails),
                 wrap=[rng.random() < 0.5 for _ in range(nparts)], arr=[rng.random() < 0.5 for _ in range(16)])
+    if tail and rng.random() < 0.25:
+        # every part is a LazyIndexer with the same first-stage selection on the tail axes (sometimes empty):
+        # shape / len of the concatenation and scalar / list head indices
+        k1t = []
+        for n in tail:
+            ix = gen_stage1(rng, n, True)
+            if rng.random() < 0.35:
+                ix = ('m', [False] * n)
+            k1t.append(ix)
+        t1 = [ixgen.np_len(n, ix) for n, ix in zip(tail, k1t)]
+        r = rng.random()
+        head = ixgen.gen_int(rng, total) if (r < 0.5 and total) else ixgen.gen_inc_list(rng, total)
+        case.update(k1tail=k1t, tail1=t1, head=head, tails=[], wrap=[True] * nparts)
+    return case
 
 
 # ------------------------------------------------------------------ implementation side
+
+def make_src(case):
+    """coordinate codes; the float flavour carries a half so that a cast to an integer type is visible"""
+    shape = tuple(case['shape'])
+    src = np.arange(int(np.prod(shape)), dtype=np.int64).reshape(shape)
+    return src + 0.5 if case.get('sdtype') == 'f8' else src
+
 
 def transforms_for(names):
     from katdal.lazy_indexer import LazyTransform
@@ -100,6 +122,9 @@ def transforms_for(names):
     for t in names:
         if t == 'x2':
             out.append(LazyTransform('x2', lambda d, k: d * 2))
+        elif t == 'rint2':
+            # declared dtype narrower than a float source: the transform must see the source values
+            out.append(LazyTransform('rint2', lambda d, k: np.rint(d * 2).astype(np.int64), dtype=np.int64))
         else:
             out.append(LazyTransform('f32', lambda d, k: d.astype(np.float32), dtype=np.float32))
     return out
@@ -107,7 +132,7 @@ def transforms_for(names):
 
 def apply_tf(names, a):
     for t in names:
-        a = a * 2 if t == 'x2' else a.astype(np.float32)
+        a = a * 2 if t == 'x2' else (np.rint(a * 2).astype(np.int64) if t == 'rint2' else a.astype(np.float32))
     return a
 
 
@@ -118,8 +143,7 @@ def py_tuple(ixs, arr, off=0):
 
 def run_single_impl(case):
     from katdal.lazy_indexer import LazyIndexer
-    shape = tuple(case['shape'])
-    src = np.arange(int(np.prod(shape)), dtype=np.int64).reshape(shape)
+    src = make_src(case)
     h5 = None
     res = dict(out=None, err=None, shape=None, dtype=None, full_shape=None, full_dtype=None)
     try:
@@ -175,15 +199,24 @@ def run_concat_impl(case):
         off += n
     res = dict(out=None, err=None)
     try:
-        inds = [LazyIndexer(p) if w else p for p, w in zip(parts, case['wrap'])]
+        if case.get('k1tail') is not None:
+            k1 = (slice(None),) + py_tuple(case['k1tail'], case['arr'], 7)
+            inds = [LazyIndexer(p, k1) for p in parts]
+        else:
+            inds = [LazyIndexer(p) if w else p for p, w in zip(parts, case['wrap'])]
         cat = ConcatenatedLazyIndexer(inds)
         res['shape'] = tuple(cat.shape)
+        res['len'] = len(cat)
         k = (ixgen.to_py(case['head'], as_array=case['arr'][0]),) + py_tuple(case['tails'], case['arr'], 1)
         res['out'] = np.asarray(cat[k])
     except Exception as e:   # noqa: BLE001
         res['err'] = type(e).__name__
         res['errmsg'] = str(e)[:100]
-    return res, np.concatenate(parts) if parts else None
+    whole = np.concatenate(parts) if parts else None
+    if whole is not None and case.get('k1tail') is not None:
+        for ax, ix in enumerate(case['k1tail']):
+            whole = whole[(slice(None),) * (ax + 1) + (ixgen.to_py(ix, as_array=True),)]
+    return res, whole
 
 
 # ------------------------------------------------------------------ judging
@@ -195,7 +228,7 @@ def single_lines(c):
 
 def concat_lines(c):
     lens = ','.join(map(str, c['lens']))
-    sh = ixgen.enc_shape([sum(c['lens'])] + c['tail'])
+    sh = ixgen.enc_shape([sum(c['lens'])] + (c['tail1'] if c.get('k1tail') is not None else c['tail']))
     k2 = ixgen.enc_tuple([c['head']] + c['tails'])
     return [f'concat {lens} {ixgen.enc_ix(c["head"])}', f'spec {sh} - {k2}',
             f'concatspec {lens} {ixgen.enc_ix(c["head"])}']
@@ -204,8 +237,7 @@ def concat_lines(c):
 def judge_single(ctx, c, replies, impl):
     mrep, srep, fullrep = replies
     g, srep = srep[:2], srep[3:]
-    shape = tuple(c['shape'])
-    src = np.arange(int(np.prod(shape)), dtype=np.int64).reshape(shape)
+    src = make_src(c)
     sels = ixgen.parse_sels(srep)
     if isinstance(sels, tuple):       # spec itself is an error: invalid request per numpy
         ctx.tag('invalid-request')
@@ -259,6 +291,13 @@ def judge_concat(ctx, c, replies, impl, whole):
     exp = ixgen.apply_sels(whole, sels)
     head = c['head']
     total = sum(c['lens'])
+    if c.get('k1tail') is not None:
+        ctx.tag('concat-first-stage-tail' + ('-empty' if 0 in c['tail1'] else ''))
+        if impl.get('shape') is not None and impl['shape'] != tuple(whole.shape):
+            return (f"concatenated indexer over parts with a first-stage tail selection advertises shape "
+                    f"{impl['shape']}, the concatenation of the parts' results has shape {tuple(whole.shape)}")
+        if impl.get('len') is not None and impl['len'] != whole.shape[0]:
+            return f"len() of the concatenated indexer is {impl['len']}, the concatenation has {whole.shape[0]} rows"
     from harness.props import c05 as me  # noqa: F401
     in_g = head_in_grammar(head, total)
     ctx.tag('concat-grammar' if in_g else 'concat-malformed')
